@@ -19,7 +19,7 @@ from typing import List, Optional
 from ..model import AnalysisError
 from ..sellib import argmax_source, strip_scalar
 from ..sym import NONE, Term, mentions, show, subterms
-from ..util import (SELF, arg, callee, guards_of, is_call, method_call, paths, returning, short,
+from ..util import (SELF, arg, callee, guards_of, is_call, method_call, paths, prior_assumes, returning, short,
                     where)
 
 EXPLANATION = ('Def-use analysis of the graph surgery in export_graph: provenance of the node '
@@ -45,7 +45,8 @@ def run(ctx):
     repo = ctx.repo
     eg = repo.fn('supernet.graph.export_graph')
     comb = repo.cls('SuperNetCombiner')
-    rets = returning(paths(repo, eg))
+    # helpers extracted from the surgery (e.g. one function per combiner) are inlined
+    rets = returning(paths(repo, eg, keep=('is_layer', 'is_inherited_layer', 'is_function')))
     # paths that handle a combiner node
     handled = 0
     for p in rets:
@@ -58,7 +59,7 @@ def run(ctx):
         for e in repl:
             node = method_call(e.data[0])[0]
             x = method_call(e.data[0])[2][0]
-            guards = guards_of(p, e)
+            guards = prior_assumes(p, e)
             # the replaced node is a combiner (guard): is_layer(n, ..) or isinstance(module, ..)
             is_comb = any(is_call(a, 'is_layer', 'builtins.isinstance', 'is_inherited_layer')
                           and v and mentions(a, lambda y: y == ('global', comb.qualname))
@@ -221,7 +222,7 @@ def run(ctx):
     for p in returning(paths(repo, cv)):
         for e in p.calls():
             if callee(e.data[0]) == eg.qualname:
-                g = guards_of(p, e)
+                g = prior_assumes(p, e)
                 ok = any(a == ('cmp', '==', ('param', cv.params[2]), ('const', 'export')) and v
                          for a, v in g)
     ctx.ob('R03d', 'convert runs export_graph for conversion_type == "export"', ok,
